@@ -1385,3 +1385,62 @@ Proof.
   - rewrite B, Hg0. reflexivity.
   - destruct (tree_repr _ _ _ HG1 Ht) as [P1 _]. destruct (P1 _ _ Hin) as [_ [x [X1 [X2 _]]]]. exists x. split; [assumption|]. rewrite X2. reflexivity.
 Qed.
+
+Definition ref2 (mr : mres) : Z := match mr with MOk (_ :: r :: _) _ => r | _ => 0 end.
+
+(** the harness' gettagref line against the specification's XGetTagref *)
+Lemma sim_gettagref : forall h a e ty idx h' mr x' sr, Sim h a -> tyok ty ->
+  m_gettagref h ty idx = (h', mr) -> xstep (mkx a e) (XGetTagref ty idx (ref2 mr)) = (x', sr) ->
+  Sim h' (x_st x') /\ accepts sr mr.
+Proof.
+  intros h a e ty idx h' mr x' sr HS Hty HM HSp. unfold m_gettagref in HM. unfold xstep in HSp. cbn [x_st] in HSp.
+  rewrite (sim_sess _ _ HS) in HSp. destruct (h_sess h) eqn:Es; cbn [negb] in HM, HSp.
+  2:{ inversion HM; inversion HSp; subst. split; [assumption | exact I]. }
+  rewrite (proj2 (valid_type_iff ty) Hty) in HSp. cbn [negb] in HSp.
+  pose proof (sim_good _ _ HS) as HG.
+  destruct (ANget_tagref (h_lib h) idx ty) as [l1 [[g r]|]] eqn:Eg.
+  - destruct (get_tagref_agrees _ _ _ _ _ _ HG Hty Eg) as [l2 [id [Hsel [Hid [Hidr [Hg [x [Rx Kx]]]]]]]].
+    rewrite Hsel, Hidr in HM. inversion HM; subst h' mr; clear HM. cbn [ref2] in HSp.
+    (* the state after: the tree of the type is loaded, nothing else changed *)
+    assert (HS2 : Sim (hlib h l2) a /\ (idx <? 0) || (zlen (of_type ty (anns a)) <=? idx) = false).
+    { unfold ANget_tagref in Eg. destruct (need_tree (h_lib h) ty) as [s1 rt] eqn:En.
+      destruct (need_tree_Good _ _ _ _ HG Hty En) as [HG1 [[t [-> Ht]] [_ [HR [Hids _]]]]].
+      destruct (truth (ANget_tagref_index_ok idx (l_num s1 ty))) eqn:Eok; [|inversion Eg].
+      destruct (tindex (idx + 1) t) as [e0|] eqn:Ei; [|inversion Eg]. destruct (zassoc ty ANget_tagref_tag_switch); inversion Eg; subst l1.
+      pose proof (sim_keep h a s1 HS Es HG1 HR Hids) as HS1.
+      assert (l2 = s1).
+      { unfold ANselect, need_tree in Hsel. destruct (l_num s1 ty =? -1) eqn:E.
+        - apply Z.eqb_eq in E. apply (inv_num _ (proj1 HG1)) in E. congruence.
+        - simpl in Hsel. rewrite Ht in Hsel. repeat dmatch Hsel; inversion Hsel; reflexivity. }
+      subst l2. split; [assumption|].
+      pose proof (tree_count (hlib h s1) a ty t HS1 Ht) as Hc. rewrite <- Hc.
+      unfold tindex in Ei. destruct (idx + 1 <? 1) eqn:E1; [discriminate|]. apply Z.ltb_ge in E1.
+      destruct (nth_error t (Z.to_nat (idx + 1 - 1))) eqn:En2; [|discriminate].
+      assert (Hlt : (Z.to_nat (idx + 1 - 1) < length t)%nat) by (apply nth_error_Some; congruence).
+      apply orb_false_iff. split; [apply Z.ltb_ge; lia | apply Z.leb_gt; unfold zlen; lia]. }
+    destruct HS2 as [HS2 Hrange]. rewrite Hrange in HSp.
+    assert (L : lookup (ty, r) (anns a) = Some x).
+    { rewrite <- Kx. apply In_lookup; [apply (sim_nodup _ _ HS) | apply (sim_repr _ _ HS2); assumption]. }
+    rewrite L in HSp. inversion HSp; subst x' sr. cbn [x_st]. split; [assumption|]. rewrite Hg. unfold accepts. split; [left; reflexivity | constructor].
+  - inversion HM; subst h' mr; clear HM. cbn [ref2] in HSp.
+    unfold ANget_tagref in Eg. destruct (need_tree (h_lib h) ty) as [s1 rt] eqn:En.
+    destruct (need_tree_Good _ _ _ _ HG Hty En) as [HG1 [[t [-> Ht]] [_ [HR [Hids _]]]]].
+    pose proof (sim_keep h a s1 HS Es HG1 HR Hids) as HS1.
+    pose proof (tree_count (hlib h s1) a ty t HS1 Ht) as Hc.
+    assert (Hout : (idx <? 0) || (zlen (of_type ty (anns a)) <=? idx) = true /\ l1 = s1).
+    { rewrite <- Hc. rewrite (tf_num _ (proj2 HG1) _ _ Ht) in Eg.
+      assert (Hidx : truth (ANget_tagref_index_ok idx (zlen t)) = (0 <=? idx) && (idx <=? zlen t)).
+      { unfold ANget_tagref_index_ok, truth. destruct (0 <=? idx); destruct (idx <=? zlen t); reflexivity. }
+      rewrite Hidx in Eg.
+      destruct (0 <=? idx) eqn:E0; destruct (idx <=? zlen t) eqn:E1; cbn [andb] in Eg; try (inversion Eg; subst; split; [|reflexivity]).
+      - unfold tindex in Eg. apply Z.leb_le in E0. apply Z.leb_le in E1.
+        replace (idx + 1 <? 1) with false in Eg by (symmetry; apply Z.ltb_ge; lia).
+        destruct (nth_error t (Z.to_nat (idx + 1 - 1))) as [[k e0]|] eqn:En2; cbn [option_map snd] in Eg.
+        + destruct (switches_agree ty) as [_ [S2 _]]. rewrite S2 in Eg.
+          rewrite (proj2 (atype2tag_iff ty _) (conj Hty eq_refl)) in Eg. inversion Eg.
+        + inversion Eg; subst. split; [|reflexivity]. apply nth_error_None in En2. apply orb_true_iff. right. apply Z.leb_le. unfold zlen in *. lia.
+      - apply Z.leb_gt in E1. apply orb_true_iff. right. apply Z.leb_le. lia.
+      - apply Z.leb_gt in E0. apply orb_true_iff. left. apply Z.ltb_lt. lia.
+      - apply Z.leb_gt in E0. apply orb_true_iff. left. apply Z.ltb_lt. lia. }
+    destruct Hout as [Hout ->]. rewrite Hout in HSp. inversion HSp; subst x' sr. cbn [x_st]. split; [assumption | exact I].
+Qed.
